@@ -26,6 +26,7 @@ Inductive op :=
 | OCall (p : bool) (k : kind) (follow : bool)   (* follow: the call's callback/errback issues one more call *)
 | ODeliver (d : bool) (n : nat)        (* deliver up to n boxes written by peer d *)
 | OFire (i : nat) (o : outcome)        (* the i-th pending responder answers *)
+| OCancel (c : nat)                    (* the application cancels the Deferred of call c *)
 | ODisc.                               (* the connection is lost *)
 
 Inductive ev :=
@@ -36,6 +37,8 @@ Inductive ev :=
 | ELost
 | EQuit                                (* the connection goes down because a peer closed it (QuitBox) *)
 | ENoop
+| ECancelled (call : nat)             (* d.cancel() on a still unfired call: its Deferred fails with CancelledError *)
+| EAbsorbed (call : nat) (r : res)     (* ghost: the dispatcher fires a cancelled call's Deferred; the result is swallowed *)
 | ECall (call : nat) (k : kind)       (* ghost: call was made, its command's responder behaves as k *)
 | EProduced (call : nat) (r : res).   (* ghost: the responder side produced r as the reply to call *)
 
@@ -46,26 +49,28 @@ Record st := mk {
   chA : list box; chB : list box;                       (* written by A / by B, undelivered *)
   pending : list (bool * nat * nat);                    (* responders yet to answer: (peer, tag, call) *)
   ncalls : nat;
-  follows : list nat                                    (* ids of calls whose callback calls again *)
+  follows : list nat;                                   (* ids of calls whose callback calls again *)
+  cancelled : list nat                                  (* ids of calls the application cancelled *)
 }.
 
-Definition init : st := mk true 0 0 [] [] [] [] [] 0 [].
+Definition init : st := mk true 0 0 [] [] [] [] [] 0 [] [].
 
 Definition cnt s (p : bool) := if p then cntB s else cntA s.
 Definition outs s (p : bool) := if p then outB s else outA s.
 Definition chan s (p : bool) := if p then chB s else chA s.
 Definition set_cnt (p : bool) v s :=
-  if p then mk (up s) (cntA s) v (outA s) (outB s) (chA s) (chB s) (pending s) (ncalls s) (follows s)
-  else mk (up s) v (cntB s) (outA s) (outB s) (chA s) (chB s) (pending s) (ncalls s) (follows s).
+  if p then mk (up s) (cntA s) v (outA s) (outB s) (chA s) (chB s) (pending s) (ncalls s) (follows s) (cancelled s)
+  else mk (up s) v (cntB s) (outA s) (outB s) (chA s) (chB s) (pending s) (ncalls s) (follows s) (cancelled s).
 Definition set_outs (p : bool) v s :=
-  if p then mk (up s) (cntA s) (cntB s) (outA s) v (chA s) (chB s) (pending s) (ncalls s) (follows s)
-  else mk (up s) (cntA s) (cntB s) v (outB s) (chA s) (chB s) (pending s) (ncalls s) (follows s).
+  if p then mk (up s) (cntA s) (cntB s) (outA s) v (chA s) (chB s) (pending s) (ncalls s) (follows s) (cancelled s)
+  else mk (up s) (cntA s) (cntB s) v (outB s) (chA s) (chB s) (pending s) (ncalls s) (follows s) (cancelled s).
 Definition set_chan (p : bool) v s :=
-  if p then mk (up s) (cntA s) (cntB s) (outA s) (outB s) (chA s) v (pending s) (ncalls s) (follows s)
-  else mk (up s) (cntA s) (cntB s) (outA s) (outB s) v (chB s) (pending s) (ncalls s) (follows s).
-Definition set_pending v s := mk (up s) (cntA s) (cntB s) (outA s) (outB s) (chA s) (chB s) v (ncalls s) (follows s).
-Definition set_ncalls v s := mk (up s) (cntA s) (cntB s) (outA s) (outB s) (chA s) (chB s) (pending s) v (follows s).
-Definition set_follows v s := mk (up s) (cntA s) (cntB s) (outA s) (outB s) (chA s) (chB s) (pending s) (ncalls s) v.
+  if p then mk (up s) (cntA s) (cntB s) (outA s) (outB s) (chA s) v (pending s) (ncalls s) (follows s) (cancelled s)
+  else mk (up s) (cntA s) (cntB s) (outA s) (outB s) v (chB s) (pending s) (ncalls s) (follows s) (cancelled s).
+Definition set_pending v s := mk (up s) (cntA s) (cntB s) (outA s) (outB s) (chA s) (chB s) v (ncalls s) (follows s) (cancelled s).
+Definition set_ncalls v s := mk (up s) (cntA s) (cntB s) (outA s) (outB s) (chA s) (chB s) (pending s) v (follows s) (cancelled s).
+Definition set_follows v s := mk (up s) (cntA s) (cntB s) (outA s) (outB s) (chA s) (chB s) (pending s) (ncalls s) v (cancelled s).
+Definition set_cancelled v s := mk (up s) (cntA s) (cntB s) (outA s) (outB s) (chA s) (chB s) (pending s) (ncalls s) (follows s) v.
 
 Definition emit (p : bool) (b : box) s := set_chan p (chan s p ++ [b]) s.
 
@@ -98,7 +103,8 @@ Definition nested (p : bool) (s : st) : st * list ev :=
   let '(s1, e) := place p Know s in (s1, ENested (ncalls s) :: e).
 (** the Deferred of call c (made by peer q) fires with r; its callback may call again *)
 Definition fire_result (q : bool) (c : nat) (r : res) (s : st) : st * list ev :=
-  if mem c (follows s) then let '(s1, e) := nested q s in (s1, EResult c r :: e) else (s, [EResult c r]).
+  if mem c (cancelled s) then (s, [EAbsorbed c r])     (* a cancelled Deferred swallows the one result that follows *)
+  else if mem c (follows s) then let '(s1, e) := nested q s in (s1, EResult c r :: e) else (s, [EResult c r]).
 
 (** what a responder of kind k / a pending responder completing with o produces for call c *)
 Definition kind_res (k : kind) (c : nat) : res :=
@@ -140,19 +146,21 @@ Definition deliver_box (q : bool) (b : box) (s : st) : st * list ev * bool :=
   end.
 
 (** failAllOutgoing: the reason is recorded first, so a call made by an errback fails at once *)
-Fixpoint fail_all (l : list (nat * nat)) (fol : list nat) (n : nat) : list ev * nat :=
+Fixpoint fail_all (l : list (nat * nat)) (fol can : list nat) (n : nat) : list ev * nat :=
   match l with
   | [] => ([], n)
   | (t, c) :: r =>
-      let '(e, n1) := if mem c fol then ([ENested n; EResult n RLost], S n) else ([], n) in
-      let '(e2, n2) := fail_all r fol n1 in
-      (EResult c RLost :: e ++ e2, n2)
+      if mem c can then let '(e2, n2) := fail_all r fol can n in (EAbsorbed c RLost :: e2, n2)
+      else
+        let '(e, n1) := if mem c fol then ([ENested n; EResult n RLost], S n) else ([], n) in
+        let '(e2, n2) := fail_all r fol can n1 in
+        (EResult c RLost :: e ++ e2, n2)
   end.
 
 (** connectionLost on both sides (A first) *)
 Definition lose (s : st) : st * list ev :=
-  let '(e, n) := fail_all (outA s ++ outB s) (follows s) (ncalls s) in
-  (mk false (cntA s) (cntB s) [] [] [] [] (pending s) n (follows s), e).
+  let '(e, n) := fail_all (outA s ++ outB s) (follows s) (cancelled s) (ncalls s) in
+  (mk false (cntA s) (cntB s) [] [] [] [] (pending s) n (follows s) (cancelled s), e).
 
 (** peer p closes: deliver everything p has written (the other side's replies stay undelivered), then lose *)
 Fixpoint flush (p : bool) (l : list box) (s : st) : st * list ev :=
@@ -211,6 +219,18 @@ Definition step (s : st) (o : op) : st * list ev :=
             else (s1, [EFire me call o; EProduced call r])
           else (s0, [EFire me call o])
       end
+  | OCancel c =>
+      (* Deferred.cancel on a Deferred without canceller: it fails with CancelledError at once (its errback may call
+         again) and will swallow the dispatcher's eventual result; the dispatcher's own state is untouched *)
+      if mem c (cancelled s) then (s, [ENoop])
+      else
+        let who := if mem c (map snd (outA s)) then Some false else if mem c (map snd (outB s)) then Some true else None in
+        match who with
+        | None => (s, [ENoop])
+        | Some p =>
+            let s0 := set_cancelled (c :: cancelled s) s in
+            if mem c (follows s) then let '(s1, e) := nested p s0 in (s1, ECancelled c :: e) else (s0, [ECancelled c])
+        end
   | ODisc => if up s then let '(s1, e1) := lose s in (s1, ELost :: e1) else (s, [ENoop])
   end.
 
